@@ -71,6 +71,9 @@ func streamCli(o *Out, r *rand.Rand, n int, thorough bool) {
 		// a script that closes standard output itself (bundled os package) and ends without error: exit 0, what it printed before is there
 		{"exit", "os = import(\"os\")\nos.Stdout.Close()"}, {"exit", "os = import(\"os\")\nos.Stdout.Close()\nx = 1 + 1"},
 		{"exit", "os = import(\"os\")\nos.Exit(0)"}, {"exit", "os = import(\"os\")\nos.Exit(3)"},
+		// a script that uses the bundled flag package on the command line it was started with (the tool's own -e / file argument included): flag.Parse()
+		// succeeds as it does under vm.Execute in a host that parsed its flags, and the script goes on (not run in-process: it would parse the harness's arguments)
+		{"exit", "flag = import(\"flag\")\nflag.Parse()\nos = import(\"os\")\nos.Exit(0)"}, {"exit", "flag = import(\"flag\")\nflag.Parse()\nn = flag.NArg()\nos = import(\"os\")\nos.Exit(3)"},
 		{"parseErr", "x = ("}, {"parseErr", `s = "unterminated`}, {"parseErr", "if { }"}, {"parseErr", "1 +* 2"}, {"parseErr", "func("},
 	}
 	// sources given whole (no trailing newline added), each as -e code and as a file: what runs is the text that was given
